@@ -22,6 +22,7 @@ import ast
 import itertools
 from typing import Any, Dict, Iterator, List, Optional, Set, Tuple
 
+from engines import attemptfacts as af
 from engines import callsites as cs
 from engines import pyfacts as pf
 from engines import sqlfront as sf
@@ -41,64 +42,24 @@ META = dict(
     design_ref='DESIGN.md §3 C03',
 )
 
-TIME_COLS = ['start_time', 'end_time', 'rollup_time']
-COLS = TIME_COLS + ['reason']
+TIME_COLS = af.TIME_COLS
+COLS = af.COLS
 AT = 'activation_timeout'
+ZERO = af.ZERO
+
+# re-exported (the order domain, trigger interpreter and writer model live in engines/attemptfacts.py, shared with C02)
+weak_orderings = af.weak_orderings
+exec_trigger = af.exec_trigger
+realise = af.realise
+inv = af.inv
+Writer = af.Writer
+find_writers = af.find_writers
+classify_time = af.classify_time
+WORKER_FIELDS = af.WORKER_FIELDS
 
 
-# ----------------------------------------------------------------------------------------------------
-def weak_orderings(n: int) -> Iterator[Tuple[Optional[int], ...]]:
-    """All assignments of n variables to NULL or a rank, ranks forming an initial segment 0..k-1."""
-    def rec(i: int, cur: List[Optional[int]], k: int):
-        if i == n:
-            yield tuple(cur)
-            return
-        cur.append(None)
-        yield from rec(i + 1, cur, k)
-        cur.pop()
-        for r in range(k + 1):
-            cur.append(r)
-            yield from rec(i + 1, cur, max(k, r + 1))
-            cur.pop()
-    # ranks produced above are "first-use" labels, not order; enumerate order by permuting labels
-    seen = set()
-    for lab in rec(0, [], 0):
-        k = 1 + max([x for x in lab if x is not None], default=-1)
-        for perm in itertools.permutations(range(k)):
-            t = tuple(None if x is None else perm[x] for x in lab)
-            if t not in seen:
-                seen.add(t)
-                yield t
-
-
-def exec_trigger(body: List[N], old: Dict[str, Any], new: Dict[str, Any]) -> Dict[str, Any]:
-    new = dict(new)
-
-    def env(c: N):
-        if c.kind == 'col' and len(c.parts) == 2 and c.parts[0].upper() in ('OLD', 'NEW'):
-            return (old if c.parts[0].upper() == 'OLD' else new)[c.parts[1].lower()]
-        raise AnalysisError(f'trigger reads `{text(c)}` which is not an OLD./NEW. column')
-
-    def run(stmts: List[N]):
-        for st in stmts:
-            if st.kind == 'if':
-                done = False
-                for c, b in st.branches:
-                    if _truth(ev(c, env)):
-                        run(b)
-                        done = True
-                        break
-                if not done and st.orelse is not None:
-                    run(st.orelse)
-            elif st.kind == 'set':
-                for t, v in st.assigns:
-                    if not (t.kind == 'col' and len(t.parts) == 2 and t.parts[0].upper() == 'NEW'):
-                        raise AnalysisError(f'trigger assigns `{text(t)}`')
-                    new[t.parts[1].lower()] = ev(v, env)
-            else:
-                raise AnalysisError(f'attempts_before_update: unsupported statement {st.kind}')
-    run(body)
-    return new
+def refine_from_callers(ctx: Ctx, ws: List[Writer], prog: Optional[sf.SqlProgram] = None) -> None:
+    af.refine_from_callers(ctx, prog or sf.load_program(), ws)
 
 
 def billed_never_decreases(old: Dict[str, Any], new: Dict[str, Any]) -> bool:
@@ -112,314 +73,313 @@ def billed_never_decreases(old: Dict[str, Any], new: Dict[str, Any]) -> bool:
     return s2 <= s and r2 >= r
 
 
-def realise(vals: Dict[str, Any]) -> Dict[str, Any]:
-    return {k: (None if v is None else (1000 * (v + 1) if isinstance(v, int) else v)) for k, v in vals.items()}
-
-
 # ----------------------------------------------------------------------------------------------------
-class Writer:
-    def __init__(self, wid: str, file: str, line: int, sets: Dict[str, str], reason_dom: Optional[Set[Optional[str]]], nonnull: Set[str]):
-        self.wid = wid
-        self.file = file
-        self.line = line
-        self.sets = sets            # column -> symbol name (same symbol = same value)
-        self.reason_dom = reason_dom
-        self.nonnull = nonnull      # time symbols proven non-NULL at all call sites
-        # call-chain variants: list of (label, {symbol: 'nonnull'|'null'|'any'}, fresh_attempt, reason values or None)
-        self.variants: List[Tuple[str, Dict[str, str], bool, Optional[Set[Optional[str]]]]] = []
-
-
-def _sym(e: N) -> str:
-    if e.kind == 'col' and len(e.parts) == 1:
-        return e.parts[0].lower()
-    if e.kind == 'param':
-        return f'%s@{e.pos}'
-    raise AnalysisError(f'attempt column assigned a non-parameter expression `{text(e)}`')
-
-
-def find_writers(ctx: Ctx, prog: sf.SqlProgram) -> List[Writer]:
-    out: List[Writer] = []
-    for name, r in sorted(prog.routines.items()):
-        for st in sf.all_statements(r.ast.body):
-            if st.kind == 'update' and 'attempts' in [t.lower() for t in sf.table_names(st.frm)]:
-                tabs = [t for t in sf.from_tables(st.frm) if t.kind == 'table']
-                alias = {(t.alias or t.name).lower(): t.name.lower() for t in tabs}
-                sets = {}
-                for c, v in st.sets:
-                    if c.kind == 'col' and c.parts[-1].lower() in COLS and (len(c.parts) == 1 and tabs[0].name.lower() == 'attempts' or len(c.parts) > 1 and alias.get(c.parts[-2].lower()) == 'attempts'):
-                        sets[c.parts[-1].lower()] = _sym(v)
-                if sets:
-                    out.append(Writer(f'sql:{name}', r.file, r.line_of(st), sets, None, set()))
-            elif st.kind == 'insert' and st.table.lower() == 'attempts':
-                cols = [c.lower() for c in (st.cols or [])]
-                ctx.check(not (set(cols) & set(COLS)) and all(text(c).lower() == text(v).lower() for c, v in st.on_dup), 'R3', f'{r.file}::{name}::INSERT INTO attempts',
-                          f'INSERT INTO attempts sets {sorted(set(cols) & set(COLS))} / updates on duplicate: those values bypass or re-enter the BEFORE UPDATE trigger unchecked', r.file, r.line_of(st))
-                out.append(Writer(f'sql:{name}::duplicate-insert no-op', r.file, r.line_of(st), {}, None, set()))
-    for rel in pf.walk_py(['batch/batch']):
-        m = pf.load(rel)
-        if 'attempts' not in m.src:
-            continue
-        for e in sf.embedded_in(m):
-            if e.sql_text is None or 'attempts' not in e.sql_text:
-                continue
-            for st in e.stmts():
-                if st.kind == 'update' and [t.lower() for t in sf.table_names(st.frm)][:1] == ['attempts']:
-                    sets = {c.parts[-1].lower(): _sym(v) for c, v in st.sets if c.kind == 'col' and c.parts[-1].lower() in COLS}
-                    if sets:
-                        out.append(Writer(f'py:{rel}::{e.qual}', m.path, e.lineno, sets, None, set()))
-                elif st.kind in ('insert', 'delete') and any(t.lower() == 'attempts' for t, _ in sf.written_tables(st)):
-                    cols = [c.lower() for c in (getattr(st, 'cols', None) or [])]
-                    ctx.check(st.kind == 'insert' and not (set(cols) & set(COLS)), 'R3', f'{rel}::{e.qual}::{st.kind} attempts', f'{st.kind} on attempts outside the trigger-protected UPDATE path', m.path, e.lineno)
-    return out
-
-
-# Worker-supplied JSON fields: NULL-ness cannot be seen in the driver; frozen table, one reason per line.
-WORKER_FIELDS = {
-    ("job_complete_1", "job_status['start_time']"): ('any', 'a job that failed before starting reports start_time None'),
-    ("job_complete_1", "job_status['end_time']"): ('nonnull', 'worker.py post_job_complete_1 asserts job.end_time before posting'),
-    ("job_started_1", "job_status['start_time']"): ('nonnull', 'the worker sets start_time = time_msecs() before it posts job_started (status schema: start_time: int)'),
-    ("billing_update_1", "body['timestamp']"): ('nonnull', 'the worker posts billing updates with timestamp = time_msecs()'),
-}
-
-
-def classify_time(ctx: Ctx, m: pf.Module, fn: Optional[pf.FuncDef], x: ast.expr, depth: int = 3) -> List[Tuple[str, str]]:
-    """Possible NULL-classes of a Python expression bound to a timestamp parameter: list of (class, origin)."""
-    if isinstance(x, ast.Constant) and x.value is None:
-        return [('null', f'{m.rel}:{x.lineno} None')]
-    if isinstance(x, ast.Call) and pf.dotted(x.func) == 'time_msecs':
-        return [('nonnull', f'{m.rel}:{x.lineno} time_msecs()')]
-    if isinstance(x, ast.Name) and fn is not None:
-        defs = pf.assignments(fn).get(x.id, [])
-        params = [a for a in defs if isinstance(a, ast.arg)]
-        others = [d for d in defs if not isinstance(d, ast.arg)]
-        # idiom:  if not t: t = time_msecs()
-        if params and len(others) == 1 and isinstance(others[0], ast.Call) and pf.dotted(others[0].func) == 'time_msecs':
-            for n in pf.walk_shallow(fn):
-                if isinstance(n, ast.If) and pf.nsrc(n.test) in (f'not {x.id}', f'{x.id} is None') and any(isinstance(b, ast.Assign) and b.value is others[0] for b in n.body):
-                    return [('nonnull', f'{m.rel}::{fn.name} `if not {x.id}: {x.id} = time_msecs()`')]
-        if params and not others and depth > 0:
-            out: List[Tuple[str, str]] = []
-            sites = cs.call_sites(['batch/batch'], fn.name)
-            # methods: only count sites whose callee name matches; self.deactivate(..) etc.
-            for m2, f2, call in sites:
-                if f2 is fn:
-                    continue
-                a = cs.arg_of(call, fn, x.id)
-                if a is None and fn.args.args and fn.args.args[0].arg == 'self':
-                    # bound-method call: shift by one
-                    names = [q.arg for q in fn.args.args][1:]
-                    if x.id in names and names.index(x.id) < len(call.args):
-                        a = call.args[names.index(x.id)]
-                    else:
-                        a = next((k.value for k in call.keywords if k.arg == x.id), None)
-                if a is None:
-                    # defaulted parameter
-                    d = _default_of(fn, x.id)
-                    if d is not None:
-                        out += classify_time(ctx, m, None, d, 0)
-                    else:
-                        out.append(('any', f'{m2.rel}:{call.lineno} argument not found'))
-                    continue
-                out += classify_time(ctx, m2, f2, a, depth - 1)
-            return out or [('any', f'no call sites of {fn.name}')]
-        if len(others) == 1 and not params and isinstance(others[0], ast.expr):
-            return classify_time(ctx, m, fn, others[0], depth)
-    if isinstance(x, ast.Subscript) and fn is not None:
-        key = (fn.name, pf.nsrc(x))
-        if key in WORKER_FIELDS:
-            cls, why = WORKER_FIELDS[key]
-            ctx.assume(f'worker-supplied {key[1]} in {key[0]} is {cls}: {why}')
-            return [(cls, f'{m.rel}::{fn.name} {key[1]}')]
-    return [('any', f'{m.rel}:{getattr(x, "lineno", 0)} {pf.nsrc(x)[:40]}')]
-
-
-def _default_of(fn: pf.FuncDef, name: str) -> Optional[ast.expr]:
-    args = fn.args.args
-    defaults = fn.args.defaults
-    off = len(args) - len(defaults)
-    for i, a in enumerate(args):
-        if a.arg == name and i >= off:
-            return defaults[i - off]
-    for a, d in zip(fn.args.kwonlyargs, fn.args.kw_defaults):
-        if a.arg == name:
-            return d
-    return None
-
-
-def refine_from_callers(ctx: Ctx, ws: List[Writer]) -> None:
-    """Per call chain: NULL-class of each timestamp parameter and the reason values (closed set of CALL sites in the driver)."""
-    prog = sf.load_program()
-    calls: Dict[str, Tuple[pf.Module, sf.Embedded, List[ast.expr]]] = {}
-    for rel in ('batch/batch/driver/job.py', 'batch/batch/driver/instance.py'):
-        m = pf.load(rel)
-        for e in sf.embedded_in(m):
-            if e.sql_text is None:
-                continue
-            sts = e.stmts()
-            if len(sts) == 1 and sts[0].kind == 'call':
-                elts = sr.args_tuple(e.fn, e.call.args[1] if len(e.call.args) > 1 else None)
-                if elts is not None:
-                    calls[sts[0].name] = (m, e, elts)
-    for w in ws:
-        tsyms = sorted({s_ for c, s_ in w.sets.items() if c in TIME_COLS})
-        if w.wid.startswith('py:'):
-            # embedded UPDATE: bind %s parameters positionally
-            rel = w.wid[3:].split('::')[0]
-            m = pf.load(rel)
-            e = [x for x in sf.embedded_in(m) if x.lineno == w.line][0]
-            st = [q for q in e.stmts() if q.kind == 'update'][0]
-            params = sr.params_in_order(st)
-            arg = e.call.args[1] if len(e.call.args) > 1 else None
-            arg = pf.resolve_expr(e.fn, arg) if arg is not None else None
-            first = None
-            if isinstance(arg, (ast.List, ast.Tuple)) and arg.elts and not isinstance(arg.elts[0], ast.Starred):
-                first = arg.elts[0]
-            classes = {}
-            for s_ in tsyms:
-                pos = int(s_.split('@')[1])
-                idx = [p.pos for p in params].index(pos)
-                x = first if idx == 0 and first is not None else None
-                cl = classify_time(ctx, m, e.fn, x) if x is not None else [('any', 'unbound')]
-                classes[s_] = cl[0][0] if len({c for c, _ in cl}) == 1 else 'any'
-            w.variants.append((e.qual, classes, False, None))
-            continue
-        name = w.wid[4:].split('::')[0]
-        if not w.sets:
-            w.variants.append(('no-op', {}, False, None))
-            continue
-        if name not in calls:
-            w.variants.append(('unresolved callers', {s_: 'any' for s_ in tsyms}, False, None))
-            continue
-        m, e, elts = calls[name]
-        params = [p[1].lower() for p in prog.routine(name).ast.params]
-        ctx.need(len(params) == len(elts), f'CALL {name}: arity mismatch between procedure and Python site')
-        bind = dict(zip(params, elts))
-        wrapper = e.fn
-        wparams = [a.arg for a in wrapper.args.args + wrapper.args.kwonlyargs]
-        forwarded = {s_: bind[s_].id for s_ in tsyms if s_ in bind and isinstance(bind[s_], ast.Name) and bind[s_].id in wparams
-                     and not [d for d in pf.assignments(wrapper).get(bind[s_].id, []) if not isinstance(d, ast.arg)]}
-        rs = w.sets.get('reason')
-        r_forwarded = rs in bind and isinstance(bind[rs], ast.Name) and bind[rs].id in wparams
-        if forwarded or r_forwarded:
-            # one variant per caller of the wrapper
-            for m2, f2, call in cs.call_sites(['batch/batch'], wrapper.name):
-                if f2 is wrapper:
-                    continue
-                classes = {}
-                for s_ in tsyms:
-                    if s_ in forwarded:
-                        a = cs.arg_of(call, wrapper, forwarded[s_])
-                        cl = classify_time(ctx, m2, f2, a) if a is not None else [('any', 'missing')]
-                    else:
-                        cl = classify_time(ctx, m, wrapper, bind[s_]) if s_ in bind else [('any', 'unbound')]
-                    kinds = {c for c, _ in cl}
-                    classes[s_] = kinds.pop() if len(kinds) == 1 else 'any'
-                rvals: Optional[Set[Optional[str]]] = None
-                if rs in bind:
-                    a = cs.arg_of(call, wrapper, bind[rs].id) if r_forwarded else bind[rs]
-                    v = cs.literal_strings(f2 if r_forwarded else wrapper, a) if a is not None else None
-                    rvals = set(v) if v is not None else None
-                # an attempt id that is literally None never matches a row: the UPDATE is a no-op
-                aid = bind.get('in_attempt_id')
-                if isinstance(aid, ast.Name) and aid.id in wparams:
-                    av = cs.arg_of(call, wrapper, aid.id)
-                    if isinstance(av, ast.Constant) and av.value is None:
-                        ctx.info(f'C03: {m2.rel}:{call.lineno} calls {wrapper.name} with attempt_id None: `attempt_id = NULL` matches no row, no update happens')
-                        continue
-                fresh = f2 is not None and f2.name == 'mark_job_errored'
-                w.variants.append((f'{m2.rel}::{m2.qualname(f2) if f2 else "<module>"}', classes, fresh, rvals))
-        else:
-            classes = {}
-            for s_ in tsyms:
-                cl = classify_time(ctx, m, wrapper, bind[s_]) if s_ in bind else [('any', 'unbound')]
-                kinds = {c for c, _ in cl}
-                classes[s_] = kinds.pop() if len(kinds) == 1 else 'any'
-            rvals = None
-            if rs in bind:
-                v = cs.literal_strings(wrapper, bind[rs])
-                rvals = set(v) if v is not None else None
-            w.variants.append((f'{m.rel}::{m.qualname(wrapper)}', classes, False, rvals))
-        if any(v[2] for v in w.variants):
-            ctx.assume('mark_job_errored is only called for an attempt id freshly generated by the scheduling loop (the attempt row has no timestamps yet); '
-                       'checked at the call sites that generate the id with secret_alnum_string')
-
-
-# ----------------------------------------------------------------------------------------------------
-def inv(row: Dict[str, Any]) -> bool:
-    r, e = row['rollup_time'], row['end_time']
-    return r is None or e is None or r <= e
-
-
-def check_writer(ctx: Ctx, body: List[N], w: Writer, orderings3: List[Tuple], trig_file: str) -> int:
-    tsyms = sorted({s for c, s in w.sets.items() if c in TIME_COLS})
-    rsym = w.sets.get('reason')
-    n = len(tsyms)
-    old_reasons = [None, 'completed', AT]
+def check_writer(ctx: Ctx, body: List[N], w: Writer, special: List[str], trig_file: str, zeroing: Dict[str, List[str]]) -> int:
     fails: Dict[str, Tuple] = {}
+    settled: Set[str] = set()      # clauses whose witness starts from a state real histories produce (reason set iff end set)
     count = 0
-    for label, classes, fresh, rvals in w.variants:
-        if rsym is None:
-            new_reasons: List[Optional[str]] = ['<keep>']
-        elif rvals is not None:
-            new_reasons = sorted(rvals, key=str)
-        else:
-            new_reasons = [None, 'completed', AT]
-        for ordv in weak_orderings(3 + n):
-            old = dict(zip(TIME_COLS, ordv[:3]))
-            if not inv(old):
-                continue
-            if fresh and any(v is not None for v in old.values()):
-                continue
-            pv = dict(zip(tsyms, ordv[3:]))
-            if any((classes.get(s) == 'nonnull' and pv[s] is None) or (classes.get(s) == 'null' and pv[s] is not None) for s in tsyms):
-                continue
-            for oreason in old_reasons:
-                if fresh and oreason is not None:
-                    continue
-                old['reason'] = oreason
-                for nr in new_reasons:
-                    new = dict(old)
-                    for c, s in w.sets.items():
-                        new[c] = pv[s] if c in TIME_COLS else (oreason if nr == '<keep>' else nr)
-                    count += 1
-                    out = exec_trigger(body, old, new)
-                    rep_reason = new['reason']
-                    if 'a' not in fails and not inv(out):
-                        fails['a'] = (label, dict(old), dict(new), out)
-                    if 'b' not in fails and old['start_time'] is not None:
-                        if out['start_time'] is None:
-                            if rep_reason != AT:
-                                fails['b'] = (label, dict(old), dict(new), out)
-                        elif out['start_time'] > old['start_time']:
-                            fails['b'] = (label, dict(old), dict(new), out)
-                    if 'c' not in fails and oreason is not None:
-                        same = out['end_time'] == old['end_time']
-                        earlier = out['end_time'] is not None and old['end_time'] is not None and out['end_time'] < old['end_time']
-                        if not (same or earlier):
-                            fails['c'] = (label, dict(old), dict(new), out)
-                    if 'd' not in fails and not billed_never_decreases(old, out):
-                        allowed = rep_reason == AT or (out['end_time'] is not None and old['rollup_time'] is not None and out['end_time'] < old['rollup_time'])
-                        if not allowed:
-                            fails['d'] = (label, dict(old), dict(new), out)
-                    if 'e' not in fails and out['end_time'] is not None and out['rollup_time'] is not None and out['start_time'] is not None:
-                        if out['rollup_time'] > out['end_time'] and out['rollup_time'] > out['start_time']:
-                            fails['e'] = (label, dict(old), dict(new), out)
+
+    def record(clause: str, label: str, old: Dict[str, Any], new: Dict[str, Any], out: Dict[str, Any]) -> None:
+        # keep the first witness, but prefer one whose OLD row has (reason IS NULL) == (end_time IS NULL)
+        good = (old['reason'] is None) == (old['end_time'] is None)
+        if clause not in fails or good:
+            fails[clause] = (label, old, new, out)
+        if good:
+            settled.add(clause)
+
+    for label, old, new, out in af.transitions(body, w, special):
+        count += 1
+        oreason = old['reason']
+        rep_reason = new['reason']
+        exempt = rep_reason in zeroing     # the report marks an activation timeout (which bills nothing)
+        if 'a' not in settled and not inv(out):
+            record('a', label, old, new, out)
+        if 'b' not in settled and old['start_time'] is not None:
+            if out['start_time'] is None:
+                if not exempt:
+                    record('b', label, old, new, out)
+            elif out['start_time'] > old['start_time']:
+                record('b', label, old, new, out)
+        if 'c' not in settled and oreason is not None:
+            same = out['end_time'] == old['end_time']
+            earlier = out['end_time'] is not None and old['end_time'] is not None and out['end_time'] < old['end_time']
+            if not (same or earlier):
+                record('c', label, old, new, out)
+        if 'd' not in settled and not billed_never_decreases(old, out):
+            allowed = exempt or (out['end_time'] is not None and old['rollup_time'] is not None and out['end_time'] < old['rollup_time'])
+            if not allowed:
+                record('d', label, old, new, out)
+        if 'e' not in settled and out['end_time'] is not None and out['rollup_time'] is not None and out['start_time'] is not None:
+            if out['rollup_time'] > out['end_time'] and out['rollup_time'] > out['start_time']:
+                record('e', label, old, new, out)
+        if 'f' not in settled and out['start_time'] == ZERO and old['start_time'] != ZERO:
+            record('f', label, old, new, out)
     texts = {
         'a': 'stored row has rollup_time > end_time (billing beyond the end of the attempt becomes reachable)',
         'b': 'start_time moves later, or is dropped without an activation timeout',
         'c': 'an attempt that already has an end reason gets a later (or a first) end time',
         'd': 'billed duration max(rollup - start, 0) can decrease although the report neither is an activation timeout nor ends the attempt earlier than what was billed',
         'e': 'an ended attempt is billed beyond its end time',
+        'f': 'start_time is stored as the constant 0 (1970-01-01) instead of a reported time: the attempt is billed rollup_time - 0, far beyond end - start of the real attempt',
     }
     for clause, msg in texts.items():
-        cons = f'{w.wid}::UPDATE attempts SET {", ".join(sorted(w.sets)) or "<nothing>"}::clause ({clause})'
+        if clause == 'f' and clause not in fails:
+            continue        # only meaningful for writers that can produce the constant; no instance otherwise
+        cons = f'{w.wid}::UPDATE attempts SET {", ".join(w.cols) or "<nothing>"}::clause ({clause})'
         if clause in fails:
             label, o, nw, out = fails[clause]
-            ctx.bad('R1', cons, f'{msg}. Call chain {label}. Witness (times in ms): OLD={realise(o)}, row written by the statement={realise(nw)}, row stored after the trigger={realise(out)}',
+            ctx.bad('R1', cons, f'{msg}. Call chain {label}. Statement sets {w.sets}. Witness (times in ms): OLD={realise(o)}, row written by the statement={realise(nw)}, row stored after the trigger={realise(out)}',
                     w.file, w.line, extra={'chain': label, 'old': realise(o), 'new': realise(nw), 'stored': realise(out)})
         else:
             ctx.ok('R1', cons, {'cases': count, 'variants': [(l, c, f, sorted(map(str, r)) if r is not None else 'any') for l, c, f, r in w.variants]})
     return count
+
+
+# ----------------------------------------------------------------------------------------------------
+# R4: a reason literal for which the trigger erases a timestamp may only be reported for an instance that never activated
+# ----------------------------------------------------------------------------------------------------
+StateSet = Tuple[bool, frozenset]       # (True, S): state in S;  (False, S): state not in S
+TOP: StateSet = (False, frozenset())
+
+
+def _inter(a: StateSet, b: StateSet) -> StateSet:
+    if a[0] and b[0]:
+        return (True, a[1] & b[1])
+    if a[0]:
+        return (True, a[1] - b[1])
+    if b[0]:
+        return (True, b[1] - a[1])
+    return (False, a[1] | b[1])
+
+
+def _union(a: StateSet, b: StateSet) -> StateSet:
+    if a[0] and b[0]:
+        return (True, a[1] | b[1])
+    if a[0]:
+        return (False, b[1] - a[1])
+    if b[0]:
+        return (False, a[1] - b[1])
+    return (False, a[1] & b[1])
+
+
+def _compl(a: StateSet) -> StateSet:
+    return (not a[0], a[1])
+
+
+class StateFacts:
+    """What a boolean expression says about `<subject>.state` / `<subject>._state` (string-literal comparisons only)."""
+
+    def __init__(self, subject: str):
+        self.subject = subject
+        self.opaque: List[str] = []
+
+    def _is_state(self, e: ast.AST) -> bool:
+        return isinstance(e, ast.Attribute) and e.attr in ('state', '_state') and pf.nsrc(e.value) == self.subject
+
+    def _lits(self, e: ast.AST) -> Optional[frozenset]:
+        if isinstance(e, (ast.Tuple, ast.List, ast.Set)) and all(pf.const_str(x) is not None for x in e.elts):
+            return frozenset(pf.const_str(x) for x in e.elts)
+        return None
+
+    def atom(self, e: ast.expr) -> StateSet:
+        if isinstance(e, ast.Compare) and len(e.ops) == 1:
+            l, op, r = e.left, e.ops[0], e.comparators[0]
+            if self._is_state(r) and isinstance(op, (ast.Eq, ast.NotEq)):
+                l, r = r, l
+            if self._is_state(l):
+                s = pf.const_str(r)
+                if s is not None and isinstance(op, ast.Eq):
+                    return (True, frozenset([s]))
+                if s is not None and isinstance(op, ast.NotEq):
+                    return (False, frozenset([s]))
+                ls = self._lits(r)
+                if ls is not None and isinstance(op, ast.In):
+                    return (True, ls)
+                if ls is not None and isinstance(op, ast.NotIn):
+                    return (False, ls)
+        if any(self._is_state(n) for n in ast.walk(e)):
+            self.opaque.append(pf.nsrc(e))
+        return TOP
+
+    def when_true(self, e: ast.expr) -> StateSet:
+        if isinstance(e, ast.BoolOp):
+            parts = [self.when_true(v) for v in e.values]
+            acc = parts[0]
+            for p in parts[1:]:
+                acc = _inter(acc, p) if isinstance(e.op, ast.And) else _union(acc, p)
+            return acc
+        if isinstance(e, ast.UnaryOp) and isinstance(e.op, ast.Not):
+            return self.when_false(e.operand)
+        return self.atom(e)
+
+    def when_false(self, e: ast.expr) -> StateSet:
+        if isinstance(e, ast.BoolOp):
+            parts = [self.when_false(v) for v in e.values]
+            acc = parts[0]
+            for p in parts[1:]:
+                acc = _union(acc, p) if isinstance(e.op, ast.And) else _inter(acc, p)
+            return acc
+        if isinstance(e, ast.UnaryOp) and isinstance(e.op, ast.Not):
+            return self.when_true(e.operand)
+        a = self.atom(e)
+        return TOP if a == TOP else _compl(a)
+
+
+def _always_exits(stmts: List[ast.stmt]) -> bool:
+    if not stmts:
+        return False
+    last = stmts[-1]
+    if isinstance(last, (ast.Return, ast.Raise, ast.Continue, ast.Break)):
+        return True
+    if isinstance(last, ast.If):
+        return _always_exits(last.body) and _always_exits(last.orelse)
+    return False
+
+
+def path_conditions(m: pf.Module, fn: pf.FuncDef, node: ast.AST) -> List[Tuple[ast.expr, bool]]:
+    """(test, polarity) facts that hold whenever `node` is reached inside fn: enclosing if-branches, earlier sibling ifs that leave
+    (return / raise / continue / break) and earlier sibling asserts.  Single-definition locals in the tests are expanded."""
+    par = m.parents()
+    out: List[Tuple[ast.expr, bool]] = []
+    cur: ast.AST = node
+    p = par.get(cur)
+    while p is not None and cur is not fn:
+        if isinstance(p, ast.If) and cur is not p.test:
+            in_body = any(cur is s for s in p.body)
+            in_else = any(cur is s for s in p.orelse)
+            if in_body or in_else:
+                out.append((p.test, in_body))
+        for field in ('body', 'orelse', 'finalbody'):
+            lst = getattr(p, field, None)
+            if isinstance(lst, list) and any(cur is s for s in lst):
+                idx = [i for i, s in enumerate(lst) if s is cur][0]
+                for s in lst[:idx]:
+                    if isinstance(s, ast.If):
+                        be, ee = _always_exits(s.body), _always_exits(s.orelse)
+                        if be and not ee:
+                            out.append((s.test, False))
+                        elif ee and not be:
+                            out.append((s.test, True))
+                    elif isinstance(s, ast.Assert):
+                        out.append((s.test, True))
+        cur = p
+        p = par.get(cur)
+    return [(pf.expand_locals(fn, t), pol) for t, pol in out]
+
+
+def never_activated_states(ctx: Ctx) -> Set[str]:
+    """States of an instance that has not activated: what Instance.activate requires before it sets the state to 'active'."""
+    m = pf.load('batch/batch/driver/instance.py')
+    ctx.need(m.has_func('Instance.activate'), 'Instance.activate not found (needed to know which instance states precede activation)')
+    fn = m.func('Instance.activate')
+    sets_active = any(isinstance(n, ast.Assign) and any(pf.nsrc(t) == 'self._state' for t in n.targets) and pf.const_str(n.value) == 'active' for n in pf.walk_shallow(fn))
+    ctx.need(sets_active, 'Instance.activate does not assign self._state = \'active\'')
+    sf_ = StateFacts('self')
+    acc = TOP
+    for st in fn.body:
+        if isinstance(st, ast.Assert):
+            acc = _inter(acc, sf_.when_true(st.test))
+        elif isinstance(st, ast.If) and _always_exits(st.body) and not st.orelse:
+            acc = _inter(acc, sf_.when_false(st.test))
+    ctx.need(acc[0] and acc[1], 'Instance.activate does not state which instance state precedes activation (assert self._state == ...)')
+    return set(acc[1])
+
+
+def _subjects(call: ast.Call) -> List[str]:
+    out = []
+    f = call.func
+    if isinstance(f, ast.Attribute):
+        root = f.value
+        out.append(pf.nsrc(root))
+        while isinstance(root, (ast.Attribute, ast.Subscript, ast.Call)):
+            root = root.value if not isinstance(root, ast.Call) else root.func
+        if isinstance(root, ast.Name) and root.id not in out:
+            out.append(root.id)
+    for a in list(call.args) + [k.value for k in call.keywords]:
+        if isinstance(a, (ast.Name, ast.Attribute)) and pf.nsrc(a) not in out:
+            out.append(pf.nsrc(a))
+    if 'self' not in out:
+        out.append('self')
+    return out
+
+
+def r4_zeroing_reason_precondition(ctx: Ctx, prog: sf.SqlProgram, trig: sf.Routine, ws: List[Writer], zeroing: Dict[str, List[str]], special: List[str]) -> None:
+    if not zeroing:
+        ctx.ok('R4', f'{trig.file}::attempts_before_update::no reason literal erases a timestamp', nontrivial=False)
+        return
+    pending = never_activated_states(ctx)
+    calls = af.proc_calls(ctx, prog)
+    seen: Set[Tuple[str, int, str]] = set()
+    for w in ws:
+        if not w.assigns or not any(c == 'reason' for c, _ in w.assigns):
+            continue
+        if w.rsym is None:
+            lit = [v.value for c, v in w.assigns if c == 'reason' and v.kind == 'lit']
+            ctx.need(not (lit and lit[0] in zeroing), f'{w.wid}: sets reason = \'{lit[0] if lit else ""}\' inside SQL; the never-activated precondition cannot be established there')
+            continue
+        if w.wid.startswith('py:'):
+            e = w.embedded          # type: ignore[attr-defined]
+            params = sr.params_in_order(w.stmt)     # type: ignore[attr-defined]
+            elts = sr.args_tuple(e.fn, e.call.args[1] if len(e.call.args) > 1 else None)
+            ctx.need(elts is not None and len(elts) == len(params), f'{w.wid}: reason parameter of the embedded UPDATE cannot be bound to a Python expression')
+            idx = [f'%s@{p.pos}' for p in params].index(w.rsym)
+            m, fn, expr, call = e.module, e.fn, elts[idx], e.call
+        else:
+            name = w.wid[4:].split('::')[0]
+            if name not in calls or w.rsym not in calls[name].bind:
+                continue
+            pc = calls[name]
+            m, fn, expr, call = pc.m, pc.e.fn, pc.bind[w.rsym], pc.e.call
+        for value, frames, note in af.trace_strings(m, fn, expr, (af.Frame(m, fn, call),)):
+            if value is None or value not in zeroing:
+                continue
+            src = frames[0]
+            key = (src.m.rel, src.call.lineno, value)
+            if key in seen:
+                continue
+            seen.add(key)
+            cons = f'{src.label}::{pf.nsrc(src.call)[:80]}::reason \'{value}\''
+            verdicts = []
+            opaque: List[str] = []
+            ok = False
+            for fr in frames:
+                if fr.fn is None:
+                    continue
+                conds = path_conditions(fr.m, fr.fn, fr.call)
+                for subj in _subjects(fr.call):
+                    facts = StateFacts(subj)
+                    acc = TOP
+                    for t, pol in conds:
+                        acc = _inter(acc, facts.when_true(t) if pol else facts.when_false(t))
+                    opaque += facts.opaque
+                    if acc[0] and acc[1] <= pending:
+                        ok = True
+                    elif acc != TOP:
+                        verdicts.append((fr, subj, acc))
+            chain = ' -> '.join(f.label.split('::', 1)[1] for f in frames) + f' -> {w.wid}'
+            if ok:
+                ctx.ok('R4', cons, {'chain': chain, 'never_activated_states': sorted(pending)})
+                continue
+            if opaque:
+                raise AnalysisError(f'{cons}: instance state is tested in a form the analysis does not follow ({opaque[0]})')
+            # witness from the order domain: what the reason does to an attempt that was billed
+            wit = ''
+            body = trig.ast.body
+            for label, old, new, out in af.transitions(body, w, special):
+                if new['reason'] == value and old['reason'] is not None and old['end_time'] is not None and old['reason'] not in zeroing and out['reason'] == old['reason'] \
+                        and not billed_never_decreases(old, out):
+                    wit = (f' E.g. an attempt that already ended: OLD={realise(old)}, row written={realise(new)}, row stored after the trigger={realise(out)}: '
+                           f'billed time drops to 0 and the stored reason stays \'{out["reason"]}\'.')
+                    break
+            if verdicts:
+                fr, subj, acc = verdicts[0]
+                may = (f'may be in {sorted(acc[1])}' if acc[0] else f'is only known not to be in {sorted(acc[1])}')
+                where = f'at this call the state of `{subj}` {may} (in {fr.label.split("::", 1)[1]})'
+            else:
+                where = 'no enclosing or preceding test constrains the instance state on any hop of the chain'
+            ctx.bad('R4', cons, f'the reason \'{value}\' makes attempts_before_update set {", ".join(zeroing[value])} = NULL for every attempt the statement touches (billed time 0, not an error only for '
+                    f'an instance that never activated, state in {sorted(pending)}); {where}. Chain: {chain}.{wit}', src.m.path, src.call.lineno,
+                    extra={'chain': chain, 'reason': value})
 
 
 def r0_syntactic(ctx: Ctx, r: sf.Routine) -> None:
@@ -474,29 +434,57 @@ def r2_billed_expr(ctx: Ctx, prog: sf.SqlProgram) -> None:
                   '(difference of NEW and OLD in the update trigger): a negative or NULL duration would be billed', r.file, r.line_of(st))
 
 
+def reason_literals(body: List[N]) -> List[str]:
+    """String literals the trigger compares a reason column with (they partition the reason domain)."""
+    out: List[str] = []
+    for st in sf.all_statements(body):
+        if st.kind != 'if':
+            continue
+        for c, _ in st.branches:
+            for n in c.walk():
+                if n.kind == 'bin' and n.op in ('=', '!=', '<>', '<=>'):
+                    for x, y in ((n.left, n.right), (n.right, n.left)):
+                        if x.kind == 'col' and x.parts[-1].lower() == 'reason' and y.kind == 'lit' and isinstance(y.value, str) and y.value not in out:
+                            out.append(y.value)
+                if n.kind == 'in' and n.arg.kind == 'col' and n.arg.parts[-1].lower() == 'reason' and isinstance(n.items, list):
+                    for y in n.items:
+                        if y.kind == 'lit' and isinstance(y.value, str) and y.value not in out:
+                            out.append(y.value)
+    return out
+
+
 def run(ctx: Ctx) -> None:
     ctx.level = 'proof'
     ctx.exhaustive = True
     ctx.explanation = ('Abstract execution of the parsed BEFORE UPDATE trigger over all weak orderings (with NULLs) of OLD timestamps and writer parameters x reason patterns, '
-                       'for each writer statement of attempts.{start,end,rollup}_time/reason found in the effective SQL program and embedded SQL.')
+                       'for each writer statement of attempts.{start,end,rollup}_time/reason found in the effective SQL program and embedded SQL; value expressions of the writers '
+                       'are evaluated symbolically per ordering class (NULL propagation, max/min normal form).')
     ctx.rule('R0', 'the trigger uses timestamps only via comparisons, IS NULL and copies (so the order domain is exact)', 1)
     ctx.rule('R1', 'for every writer and every order/NULL/reason pattern from an Inv-state: clauses (a)-(e) hold on the stored row', 35)
     ctx.rule('R2', 'billed duration expression is GREATEST(COALESCE(rollup - start, 0), 0) in both billing triggers', 2)
     ctx.rule('R3', 'the four columns are only written through UPDATE attempts; INSERT INTO attempts sets none of them', 1)
-    ctx.assume('MySQL BEFORE UPDATE: NEW = OLD overlaid with the SET list; the trigger may rewrite NEW; the stored row is NEW after the trigger')
+    ctx.rule('R4', 'a reason for which the trigger erases a timestamp (activation timeout: bills nothing) is reported only on call chains that establish that the instance never activated', 1)
+    ctx.assume('MySQL BEFORE UPDATE: NEW = OLD overlaid with the SET list (single-table UPDATE: assignments apply left to right); the trigger may rewrite NEW; the stored row is NEW after the trigger')
     ctx.assume('max(r - s, 0) is monotone in r and antitone in s (the only arithmetic fact used)')
+    ctx.assume('MySQL: + - GREATEST LEAST return NULL if any argument is NULL; COALESCE/IFNULL return the first non-NULL argument; reported timestamps are positive (a literal 0 is below all of them)')
+    ctx.assume('R4: the in-memory instance state tested by the driver is not changed between the test and the CALL (no activation in between)')
     prog = sf.load_program()
     trig = prog.routine('attempts_before_update')
     r0_syntactic(ctx, trig)
+    body = trig.ast.body
+    zeroing = af.zeroing_reasons(body)
+    special = reason_literals(body)
     ws = find_writers(ctx, prog)
-    refine_from_callers(ctx, ws)
+    af.refine_from_callers(ctx, prog, ws)
     ctx.need(len(ws) >= 7, f'only {len(ws)} writers of attempts found')
     total = 0
-    ord3 = []
     for w in ws:
-        total += check_writer(ctx, trig.ast.body, w, ord3, trig.file)
+        total += check_writer(ctx, body, w, special, trig.file, zeroing)
     ctx.unit('writer_statements', len(ws))
     ctx.unit('abstract_executions', total)
     ctx.extra_cov['writers'] = [{'writer': w.wid, 'sets': w.sets, 'call_chains': [{'chain': l, 'param_classes': c, 'fresh_attempt': f, 'reasons': sorted(map(str, r)) if r is not None else 'any'}
                                                                                    for l, c, f, r in w.variants]} for w in ws]
+    ctx.extra_cov['reason_literals_in_trigger'] = special
+    ctx.extra_cov['timestamp_erasing_reasons'] = zeroing
     r2_billed_expr(ctx, prog)
+    r4_zeroing_reason_precondition(ctx, prog, trig, ws, zeroing, special)
